@@ -41,6 +41,8 @@ def lock_jobs(rng, classes, profiles, runs_per_class, flavor="plain", ops_total=
             }
             if flavor == "plain" and i % 3 == 2:
                 args["preempt"] = 1  # SIGUSR1-based stalls at arbitrary instructions
+            if flavor == "plain" and i % 3 == 0 and args["chaos"] != 0:
+                args["step"] = 1  # trap-flag stepper: stalls at single instruction boundaries inside library calls
             if cls == "opt" and args["locks"] >= 2 and i % 3 == 1:
                 args["coupling"] = 1  # optimistic lock coupling (verify lock i while holding a grant on lock j > i)
             if extra:
@@ -93,6 +95,8 @@ LOCK_RULE = ("executions are short randomized multi-thread runs of the real lock
              "(injected-delay point, operation kind) pair during whose delay operations of other threads completed")
 
 LOCK_ASSUME = [
+    "a third of the plain runs single-step one library call in sixteen with the CPU trap flag and stall the thread "
+    "3-80 us after a random number (1-180) of instructions; another third sends SIGUSR1 stalls at random instants",
     "schedules are sampled (stress + injected delays at the hook points), not enumerated",
     "ghost facts are recorded inside the real hold interval (after the acquiring call returned, before the "
     "releasing call is made), so a ghost conflict implies a real overlap; overlaps shorter than the "
@@ -246,7 +250,9 @@ def spec_C12(prop, tier, seed, t0):
     jobs += lock_jobs(rng, ["mcs"], profs, n // 2, flavor="asan", hold_choices=(500, 2000, 20000),
                       locks_choices=(1, 2, 3), mcs_ops_total=4000, chaos_choices=(1, 2, 3))
     jobs += fast_jobs(rng, ["mcs"], 6 if tier == "quick" else 60)
-    return _mk(prop, tier, seed, t0, jobs, {"mcs_nodes_allocated": 500, "ops_total": 50000})
+    # guard moves, self moves and cross-lock assignments with node accounting (op-level programs)
+    jobs += seq_jobs(rng, ["mcs"], 6 if tier == "quick" else 60, programs=300 if tier == "quick" else 600)
+    return _mk(prop, tier, seed, t0, jobs, {"mcs_nodes_allocated": 500, "ops_total": 50000, "op_MoveAssign": 500})
 
 
 def spec_C13(prop, tier, seed, t0):
@@ -421,7 +427,8 @@ START_RULE = ("; mode=epochstart: fresh managers whose first CreateEpochGuard ca
 def _epoch_extra(subs):
     def f(rng, n, i):
         return {"sub": subs[i % len(subs)], "pace": rng.choice([0, 2000, 2000, 20000, 50000]),
-                "fwdchaos": 1 if rng.random() < 0.25 else 0, "preempt": 1 if rng.random() < 0.5 else 0}
+                "fwdchaos": 1 if rng.random() < 0.25 else 0, "preempt": 1 if rng.random() < 0.5 else 0,
+                "step": 1 if i % 2 == 1 else 0}
     return f
 
 
